@@ -26,6 +26,7 @@ from fractions import Fraction as F
 import usim
 from usim import Pipe, UnboundedPipe, Scope, time, until
 
+from harness import watch
 from harness.check import parse_z_lists
 
 # usim leaves the trigger coroutine of an unused `time == c` condition un-awaited when a block ends first
@@ -615,7 +616,7 @@ def infinite_volumes(ctx, n):
             await pipe.transfer(total=V, throughput=f)
             rep['probe'] = time.now - t0
         try:
-            usim.run(main(), till=10000)
+            watch.run(main(), till=10000)
         except BaseException as e:   # noqa
             ctx.fail(case, 'raised %r' % (e,), family='infinite-volumes')
             continue
@@ -663,7 +664,7 @@ def crowded_pipe(ctx, n):
                 for _ in range(M):
                     scope.do(one(pipe, float(half)))
         try:
-            usim.run(main(), till=100000)
+            watch.run(main(), till=100000)
         except BaseException as e:   # noqa
             ctx.fail(case, 'raised %r' % (e,), family='crowded-pipe')
             continue
